@@ -2,4 +2,5 @@ SPECIFICATION Spec
 INVARIANT Terminates
 INVARIANT NoCrash
 INVARIANT ExitHonest
+INVARIANT LimitReported
 CHECK_DEADLOCK FALSE
